@@ -1,6 +1,7 @@
 """C15 — no eviction without memory pressure (accounting tracks content)."""
 from rules.common import *  # noqa: F401,F403
 from rules.storefacts import field_of
+from rules import roles
 
 LEVEL_TEXT = (
     "Static effect pairing: for every method of RandomPolicy each call into the inner store is classified by its effect "
@@ -15,7 +16,6 @@ LEVEL_TEXT = (
 )
 ASSUMPTIONS = ["content-effect table of the Cache methods (rules/c15.py EFFECTS), read off MemoryStore's bodies"]
 
-USAGE = F(P("self"), "memory_usage")
 
 EFFECTS = {
     "set": "adds (may replace an existing record, may fail)",
@@ -42,8 +42,8 @@ def two_way(p, term):
     return None
 
 
-def is_usage(e, what):
-    return e.kind == "call" and e.name.endswith(what) and e.args and tform(e.args[0]) == USAGE
+def is_usage(e, what, usage):
+    return e.kind == "call" and e.name.endswith(what) and e.args and tform(e.args[0]) == usage
 
 
 def check_measure(ctx, rep, where, amount, b):
@@ -58,20 +58,23 @@ def check_measure(ctx, rep, where, amount, b):
 def r1(ctx):
     rep = Report("C15.R1", "accounting balance per RandomPolicy method: removals subtracted, additions only for successful stores and net of the replaced record, reset not stale", floor=10)
     f = ctx.facts
-    methods = [b for b in f.bodies.values() if b.impl_self == RP and b.kind == "assoc_fn" and (b.impl_trait is not None or b.name == "incr_mem_usage")]
+    R = roles.get(ctx)
+    USAGE = F(P("self"), R.rp_usage)
+    sweep = R.policy_sweep()
+    methods = [b for b in f.bodies.values() if b.impl_self == RP and b.kind == "assoc_fn" and (b.impl_trait is not None or b.path == sweep.path)]
     for b in sorted(methods, key=lambda x: x.path):
         rep.analysed(b)
         argn = [b.local_name(i) or "a%d" % i for i in b.arg_locals()]
-        pol = (lambda body, a: "opaque" if (body.path == RP + "::incr_mem_usage" and b.name != "incr_mem_usage") else "inline")
+        pol = (lambda body, a: "opaque" if (body.path == sweep.path and b.path != sweep.path) else "inline")
         I = Interp(f, loop_bound=1, policy=pol)
         paths = I.run(b, [P(n) for n in argn])
         rep.evaluations += len(paths)
-        nm = b.name
+        nm = "sweep" if (b.path == sweep.path and b.impl_trait is None) else b.name
         for p in paths:
             calls = [e for e in p.events if e.kind == "call"]
             inner = [(i, e) for i, e in enumerate(calls) if e.name.startswith(CACHE + "::") or e.name.startswith(IMPLD + "::")]
-            adds = [(i, e) for i, e in enumerate(calls) if is_usage(e, "fetch_add") or e.name == RP + "::incr_mem_usage"]
-            subs = [(i, e) for i, e in enumerate(calls) if is_usage(e, "fetch_sub")]
+            adds = [(i, e) for i, e in enumerate(calls) if is_usage(e, "fetch_add", USAGE) or e.name == sweep.path]
+            subs = [(i, e) for i, e in enumerate(calls) if is_usage(e, "fetch_sub", USAGE)]
             for i, e in inner:
                 m = e.name.split("::")[-1]
                 eff = EFFECTS.get(m)
